@@ -30,7 +30,8 @@ def leaf_values(k):
                 (2, 47, 2 ** 32, 0), (0, 39, 1)]
     if k == 'REAL':
         return ['inf', '-inf', (0, 2, 0), (1, 2, 0), (1, 2, 1), (-1, 2, -1), (3, 2, 10), (5, 2, -130), (7, 2, 200),
-                (-3, 2, 40000), (1, 2, -70000), (12, 2, 0), (255, 2, 3), (65537, 2, -1)]
+                (-3, 2, 40000), (1, 2, -70000), (12, 2, 0), (255, 2, 3), (65537, 2, -1), (2 ** 60 + 1, 2, -1),
+                (1, 2, -4), (-3, 2, -7), (2 ** 70 + 3, 2, -2)]
     if k in ('UTF8String',):
         return ['', 'a', 'héllo', '日本', 'x' * 130]
     if k in ('BMPString',):
